@@ -12,7 +12,7 @@ add("C02", "exploration", "reference-model comparison at the server boundary (ow
     "(against counted bytes) are compared with an independent model. Held = on all responses produced.",
     "Trusts the reference resolver, the byteranges reader and the emulators' recording; Range headers limited to the RFC grammar plus universally malformed ones.")
 add("C17", "exploration", "list-model comparison after every operation + view-agreement invariant (direct and as icontract.invariant on the real class), bounded-exhaustive operation sequences",
-    "Every operation sequence up to length 3 (thorough 4) over 39 operations on a 2x2 key/value alphabet from 5 initial lists is executed on the real MutableMultiMapping; after "
+    "Every operation sequence up to length 3 (thorough 4) over 43 operations on a 2x2 key/value alphabet from 5 initial lists is executed on the real MutableMultiMapping; after "
     "each step the pair list is compared with an independent list model and every view (getlist, [], keys, len, in, items, values, get) with the pair list; random long sequences run "
     "with the invariant armed through icontract; QueryParams/FormData/MultiMapping views and the query-string round trip are compared on generated pair lists.",
     "Trusts the per-operation list model; position of a re-assigned key and popitem's key choice not pinned.")
